@@ -512,7 +512,10 @@ class FiniteBifield:
             A primitive element (generator) of the field.
         """
         # For our implementation, the element 'x' (represented by value 2 or 0b10)
-        # is primitive when using the standard primitive polynomials
+        # is primitive when using the standard primitive polynomials.
+        # GF(2) has no element 'x': its only non-zero element, 1, generates the trivial group.
+        if self.m == 1:
+            return self(1)
         return self(0b10)
 
     def get_all_elements(self) -> List["FiniteBifieldElement"]:
